@@ -206,7 +206,8 @@ class LThread:
         self.lstack = [tid]         # logical thread ids: a request made while dispatching (INSPECT inside _unbox) runs as a
                                     # fresh logical thread on top of this one (the locks have no owner, so that is what
                                     # the nested call is); lstack[-1] is the id all tokens carry
-        self.in_factory = False     # inside Connection._netref_factory (the INSPECT round trip of a user-class reference)
+        self.in_factory = False     # inside Connection._netref_class / _netref_factory (the INSPECT round trip of a
+                                    # user-class reference)
         self.fn = fn
         self.go = _signal()
         self.state = "new"          # new | line | blocked | done
@@ -912,17 +913,43 @@ class Run:
             # keep every proxy alive until the end of the run: a dropped by-reference reply (no callback, expired) would
             # otherwise send its HANDLE_DEL notice from inside the dispatch, at a garbage-collection-dependent moment
             th = s.cur()
+            was = th.in_factory if th is not None else False
             if th is not None:
                 th.in_factory = True
             try:
                 proxy = real_factory(id_pack)
             finally:
                 if th is not None:
-                    th.in_factory = False
+                    th.in_factory = was
             run.keepalive.append(proxy)
             return proxy
 
         conn._netref_factory = netref_factory
+        if hasattr(conn, "_netref_class"):
+            # newer layout: _unbox resolves the proxy class through _netref_class (where the INSPECT round trip is made)
+            # and builds the proxy itself; _netref_factory is the composition
+            real_class = conn._netref_class
+
+            def netref_class(id_pack):
+                th = s.cur()
+                was = th.in_factory if th is not None else False
+                if th is not None:
+                    th.in_factory = True
+                try:
+                    return real_class(id_pack)
+                finally:
+                    if th is not None:
+                        th.in_factory = was
+
+            conn._netref_class = netref_class
+
+        class KeepDict(dict):
+            """`_proxy_cache` with strong references: proxies live until the end of the run (see netref_factory)"""
+            def clear(self):
+                run.keepalive.extend(self.values())
+                dict.clear(self)
+
+        conn._proxy_cache = KeepDict()
         real_close = conn.close
 
         def close():
